@@ -81,7 +81,8 @@ void AttributesTools::getAttributesMap(
     if (limit == string::npos)
     {
       // Invalid parameter
-      (*ApplicationTools::warning << "WARNING!!! Parameter '" << arg << "' has been ignored.").endLine();
+      if (ApplicationTools::warning)
+        (*ApplicationTools::warning << "WARNING!!! Parameter '" << arg << "' has been ignored.").endLine();
     }
     else
     {
